@@ -121,6 +121,11 @@ func init() {
 				seenGN["raw"+term] = true
 				out.Add("gnraw", Case{Coq: term, Tag: tag, Desc: map[string]interface{}{"object": what}})
 			}
+			// the nineteen basicConstraints / keyUsage / extKeyUsage lints with their applicability (Kernels/CaKu.v)
+			if term, tag, ok := caKuCase(c); ok && !seenGN["caku"+term] {
+				seenGN["caku"+term] = true
+				out.Add("caku", Case{Coq: term, Tag: tag, Desc: map[string]interface{}{"object": what, "is_ca": c.IsCA, "self_signed": c.SelfSigned, "key_usage": int(c.KeyUsage)}})
+			}
 			rs := zlint.LintCertificate(c).Results
 			for _, p := range lintPairs {
 				ra, rb := rs[p.a], rs[p.b]
